@@ -259,6 +259,9 @@ def std_stages(tier, seed, battery, closed=("split", "long"), kinds_random=None,
     for k, vt in (("uint32", "ptr"), ("alpha/string", "string"), ("float64", "rich")) if q else (
             ("uint32", "ptr"), ("alpha/string", "string"), ("float64", "rich"), ("int16", "bytes"), ("alpha/bytes", "ptr"), ("uint64", "string")):
         st.append(Stage("gc", k, "random", size, battery, vt=vt, n=(2 if q else 6), len=(60 if q else 150)))
+    # lengths and depths around 255 / 256 (closed), around 65535 / 65536 (random histories, no dumps)
+    st.append(Stage("model", "alpha/string", "huge", size, battery))
+    st.append(Stage("random", "alpha/bytes", "giant", size, battery, n=(2 if q else 6), len=(24 if q else 60), batevery=3, dumpevery=100000))
     for u in closed:
         for k in mk:
             # thorough closures have up to 2^13 states x ~40 operations: replay a seeded sample of 120 000 transitions per stage
